@@ -82,6 +82,30 @@ def specCallTV (num den : List (Int × Coef α)) (mem : Mem α) (zero : α) (xs 
       if b.all (fun c => c == 0) ∧ as.all (fun c => c == 0) then .ok (xs.map fun _ => zero)
       else .ok (tvspec b as a0 zero 0 (specMem zero as.length mem) [] xs)
 
+/-- a coefficient seen from output `n` on: what is left of a Stream after `n` items -/
+def Coef.dropC (n : Nat) : Coef α → Coef α
+  | .const c => .const c
+  | .strm s => .strm (s.drop n)
+
+/-- The contract over a two-call history of ONE filter object (first output consumed to its end,
+then the second call): a coefficient Stream is an iterator the filter owns, so the second call
+goes on with each coefficient stream where the first call stopped reading — "output n uses each
+coefficient stream's n-th value" with the streams' own numbering continued; memory, zero value and
+input are those of the second call.  If the first output was ended by a coefficient stream, that
+stream has ended: so does the second output, at once.  A refused call changes nothing. -/
+def specCallTwice (num den : List (Int × Coef α)) (mem1 : Mem α) (zero1 : α) (xs1 : List α)
+    (mem2 : Mem α) (zero2 : α) (xs2 : List α) : Except Err (List α) × Except Err (List α) :=
+  let r1 := specCallTV num den mem1 zero1 xs1
+  let r2 : Except Err (List α) :=
+    match r1 with
+    | .error e => .error e
+    | .ok ys =>
+      if ys.length = xs1.length then
+        specCallTV (num.map fun kv => (kv.1, kv.2.dropC xs1.length))
+          (den.map fun kv => (kv.1, kv.2.dropC xs1.length)) mem2 zero2 xs2
+      else .ok []
+  (r1, r2)
+
 end specCall
 
 /-! ### the algebra clause: snapshots -/
